@@ -83,6 +83,19 @@ CHECKS = {
         "get() is evaluated on virtual directories of three dict files and of list files with a v2 file, with glob returning names in non-sorted orders; build_index on empty and partially empty keys; all readers go through registry.get.",
    note="Trusted: datamodel.py's deep_merge/expand_v2 as the statement of C18. Outside the bounded shape space the result is inferred.",
    design="3/C18"),
+ "C14": dict(
+   technique="effect analysis over an AST call graph with import-time / run-time phase classification (who-may-write rule) + interprocedural taint of registry data",
+   text="A sufficient condition for all interleavings is decided: no function reachable at run time from the public API stores to a module global, mutates a module-level container, "
+        "stores to self.<attr> of a class whose instances live in the process-wide algorithm table, or mutates data handed out by registry.get; registry.get writes only on a miss and every run-time call site passes a literal name loaded at import. "
+        "When the rule holds every call is a function of its arguments and frozen data, so threads cannot influence each other. It found the shared remainder of the German methods.",
+   note="Assumes imports complete before threads start, pycountry's lazy load is locked, re / rstr are GIL-safe. Lock- or thread-local-based designs would need a different rule (the check would report them).",
+   design="3/C14"),
+ "C15": dict(
+   technique="effect analysis (as C14) + definite-assignment of shared scratch state by abstract evaluation with load tracking + decorator / attribute-store scans",
+   text="No run-time-reachable write to module state, registry data or caller-bound arguments; every registered algorithm (61) is evaluated abstractly with load tracking and never reads an instance attribute the current call has not written; "
+        "no memoisation decorator anywhere; IBAN/BIC/BBAN store attributes only during construction; registry writers are only called at module level.",
+   note="Library model: pycountry, re are history-independent.",
+   design="3/C15"),
 }
 NA_REASON = "check not built yet (work in progress; see DESIGN.md section 3 for the plan)"
 
